@@ -102,7 +102,7 @@ func newAccessCtx(allowed, blocked, blockedHosts []string) (a *accessManager, er
 
 	b := &strings.Builder{}
 	for _, h := range blockedHosts {
-		stringutil.WriteToBuilder(b, strings.ToLower(h), "\n")
+		stringutil.WriteToBuilder(b, lowerBlockedHost(h), "\n")
 	}
 
 	lists := []filterlist.RuleList{
@@ -121,6 +121,20 @@ func newAccessCtx(allowed, blocked, blockedHosts []string) (a *accessManager, er
 	a.blockedHostsEng = urlfilter.NewDNSEngine(rulesStrg)
 
 	return a, nil
+}
+
+// lowerBlockedHost returns the rule from the list of blocked hosts in lower
+// case, so that it matches the normalized names of the requests.  The
+// regular-expression rules are returned as they are, since the engine matches
+// them case-insensitively anyway, while lowercasing their text changes the
+// meaning of escape sequences such as \D, \S, and \W and breaks constructs such
+// as (?P<name>re).
+func lowerBlockedHost(rule string) (lowered string) {
+	if strings.HasPrefix(strings.TrimPrefix(rule, "@@"), "/") {
+		return rule
+	}
+
+	return strings.ToLower(rule)
 }
 
 // allowlistMode returns true if this *accessCtx is in the allowlist mode.
